@@ -365,6 +365,125 @@ def flag_setup():
     return open_map, flagsets
 
 
+# ----------------------------------------------------------------------------- Ethereum transactions
+
+def eth_op(frm, to, value, gas, price, data="", tag="eth"):
+    return dict(tx={"t": "eth", "from": frm, "to": to or "", "amt": str(value), "gas": gas, "gasprice": str(price), "hex": data}, frm=frm, to=to,
+                value=value, price=price, tag=tag)
+
+
+def eth_histories(r, quick):
+    """blocks of Ethereum transactions (alone and between bolt transactions' positions): plain transfers that succeed,
+    and transactions the state transition rejects BEFORE the gas is bought (balance below gas*price + value) and AFTER
+    it (gas limit below the intrinsic gas of a call / of a creation / of call data; value no longer affordable once the
+    gas is bought), to existing and never-seen receivers, by a rich and a nearly empty sender, gas price 0 and > 0"""
+    out = []
+    f = lambda a, v: {"op": "fund", "acct": a, "amt": str(v)}
+    for price in ([1000, 0] if quick else [1000, 0, 1, 7, 10**6]):
+        rich, poor = 10**18, 21000 * price + 5
+        pre = [f("u:0", rich), f("u:1", poor), f("u:2", 10**15)]
+
+        def menu(frm, bal):
+            to = r.choice(["u:2", "u:50", "u:51", "u:1"])
+            return [eth_op(frm, to, r.randrange(0, 1000), 21000, price, tag="eth_transfer"),
+                    eth_op(frm, to, 0, 20000, price, tag="eth_intrinsic_gas_call"),
+                    eth_op(frm, to, 3, 20999, price, tag="eth_intrinsic_gas_call"),
+                    eth_op(frm, "", 0, 50000, price, data="6000", tag="eth_intrinsic_gas_create"),
+                    eth_op(frm, to, 0, 21010, price, data="ffee", tag="eth_intrinsic_gas_data"),
+                    eth_op(frm, to, bal, 21000, price, tag="eth_value_after_gas"),
+                    eth_op(frm, to, bal - 21000 * price + 1, 21000, price, tag="eth_value_after_gas"),
+                    eth_op(frm, to, 2 * bal, 21000, price, tag="eth_funds_before_gas")]
+        blocks = [[o] for o in menu("u:0", rich)] + [[o] for o in menu("u:1", poor)]
+        for _ in range(2 if quick else 6):
+            blocks.append(r.sample(menu("u:0", rich) + menu("u:2", 10**15), r.randrange(2, 5)))
+        out.append(dict(cfg=dict(admins=4, gas=5, audit=False, bal="1000000000000000"), pre=pre, blocks=blocks, views=[]))
+    return out
+
+
+def eth_rows(g, out):
+    """per block: the Gallina ethcase (receipt status and gas used are inputs of the model, balances / nonces / everything
+    else are compared)"""
+    rows = []
+    steps = out.get("steps") or []
+    npre = len(g["pre"]) + 1
+    sh = X.Shadow(g["cfg"]["admins"], g["cfg"]["bal"])
+    nonces = {}
+    for si, st in enumerate(to_history(g)["steps"]):
+        if si >= len(steps):
+            rows.append((None, dict(block=si, problem="missing step (crash?)")))
+            break
+        ob = steps[si]
+        if st["op"] != "block":
+            sh.apply_pre(st)
+            continue
+        if si < npre:
+            sh.apply_block(ob)
+            continue
+        ops = g["blocks"][si - npre]
+        if ob.get("hang") or ob.get("receipts") is None:
+            rows.append((None, dict(block=si, problem="hang")))
+            break
+        accts = list(dict.fromkeys(["a:0"] + [o["frm"] for o in ops] + [o["to"] for o in ops if o["to"]] + [a[0] for a in ob.get("accts") or []]))
+        txs = []
+        for o, rc in zip(ops, ob["receipts"]):
+            n = nonces.get(o["frm"], 0)
+            nonces[o["frm"]] = n + 1
+            txs.append("{| eo_from := %s; eo_to := %s; eo_value := %s; eo_price := %s; eo_nonce := %s; eo_ok := %s; eo_gas_used := %s |}" % (
+                X.gNn(X.acct_id(o["frm"])), "(Some %s)" % X.gNn(X.acct_id(o["to"])) if o["to"] else "None", X.gZ(o["value"]), X.gZ(o["price"]),
+                X.gNn(n), vlib.gbool(rc[0] == 0), X.gZ(int(rc[7]) if len(rc) > 7 else 0)))
+        after = sh.copy()
+        after.apply_block(ob)
+        other = (ob.get("other") or 0) + len(ob.get("state") or [])
+        row = "{| ec_coinbase := %s; ec_txs := %s; ec_bals0 := %s; ec_nonces0 := %s; ec_obals := %s; ec_ononces := %s; ec_other := %s |}" % (
+            X.gNn(X.acct_id("a:0")), vlib.glist(txs),
+            vlib.glist(["(%s, %s)" % (X.gNn(X.acct_id(a)), X.gZ(sh.bal.get(a, 0))) for a in accts]),
+            vlib.glist(["(%s, %s)" % (X.gNn(X.acct_id(a)), X.gNn(sh.nonce.get(a, 0))) for a in accts]),
+            vlib.glist(["(%s, %s)" % (X.gNn(X.acct_id(a)), X.gZ(after.bal.get(a, 0))) for a in accts]),
+            vlib.glist(["(%s, %s)" % (X.gNn(X.acct_id(a)), X.gNn(after.nonce.get(a, 0))) for a in accts]), X.gNn(other))
+        sh.apply_block(ob)
+        rows.append((row, dict(block=si, tags=[o["tag"] for o in ops], recs=[rc[0] == 0 for rc in ob["receipts"]], errs=[rc[2][:40] for rc in ob["receipts"]],
+                               gas=[rc[7] if len(rc) > 7 else None for rc in ob["receipts"]])))
+    return rows
+
+
+def eth_leg(ctx, exe, items=None):
+    items = items if items is not None else eth_histories(ctx.rng, ctx.quick)
+    outs, e = X.run_histories(exe, [to_history(g) for g in items])
+    if outs is None:
+        ctx.broken("driver:execframe(eth)", e)
+        return None
+    flat = []
+    for g, out in zip(items, outs):
+        for row, info in eth_rows(g, out):
+            flat.append((g, out, row, info))
+    vs, msg = vlib.coq_judge_sharded("C07_eth", X.XPRE, "ethcase", "judge_eth", [f[2] for f in flat if f[2] is not None], shard=80)
+    if vs is None:
+        ctx.broken("correspondence:judge_eth", msg)
+        return None
+    it = iter(vs)
+    res = []
+    kinds = {}
+    for g, out, row, info in flat:
+        v = next(it) if row is not None else (2, 900)
+        res.append((info.get("block"), v))
+        for t, okk in zip(info.get("tags", []), info.get("recs", [])):
+            kinds[t + ("/ok" if okk else "/failed")] = kinds.get(t + ("/ok" if okk else "/failed"), 0) + 1
+        hist = to_history(g)
+        blk = hist["steps"][info["block"]] if info["block"] < len(hist["steps"]) else None
+        ctx.count(case_key=json.dumps(["eth", g["cfg"], blk], sort_keys=True), nontrivial=info.get("recs") is not None and not all(info.get("recs") or [True]),
+                  sample=dict(driver="execframe", kind="eth", block=blk, tags=info.get("tags"), errs=info.get("errs"), gas=info.get("gas"), verdict=v))
+        ctx.traces_validated += 1
+        rep = dict(property=PID, kind="eth", g=g, block=info.get("block"), verdict=v, info=info, panic=out.get("panic"))
+        if row is None or out.get("crash"):
+            ctx.violation("node crashed / hung while executing an Ethereum transaction: %s" % (out.get("panic") or info.get("problem")), rep)
+        elif v[0] == 2:
+            ctx.violation("a FAILED Ethereum transaction left more than its nonce and the fee gasUsed*gasPrice (paid to the coinbase) behind", rep)
+        elif v[0] != 0:
+            ctx.broken("correspondence:judge_eth", "first differing block: replay=%s %s" % (X.save_mismatch(ctx, rep), json.dumps(rep)[:500]))
+    ctx.extra["eth_distribution"] = kinds
+    return res
+
+
 def run(ctx):
     ctx.proofs(["Proofs/ExecFrameProofs"], model_targets=["Fees", "ExecFrame", "Sites"])
     exe, err = vlib.build_harness("execframe")
@@ -395,10 +514,13 @@ def run(ctx):
                     for o in b:
                         tags[o["tag"]] = tags.get(o["tag"], 0) + 1
             ctx.extra["frame_distribution"] = dict(histories=len(items), op_kinds=tags)
+        eth_leg(ctx, exe)
     return ctx.finish(rule="blocks of 1-5 transactions at every position: Store.Set, promoted Stub methods by name (Set/SetObject/Delete/Add/AddObject) on three "
                            "contracts, failing calls (missing key, unknown method, wrong arity), real methods that write then fail (InterBroker.EmitInterchain / "
                            "InvokeReceipt), transfers, undecodable payloads, IBTPs with absent / mismatching proof, wrong index, accepted IBTPs, senders at every fee "
-                           "level (gas price 0/1), read-only execution of writing calls; full raw state diff (ledger hook) per block; "
+                           "level (gas price 0/1), read-only execution of writing calls; full raw state diff (ledger hook) per block; Ethereum transactions (transfers that "
+                           "succeed, rejections before and after the gas purchase: funds, intrinsic gas of calls / creations / data, value after gas) judged "
+                           "against the fee-and-nonce accounting with the receipt's gas used; "
                            "non-trivial = a block in which a transaction FAILED after having written state, distinct by (config, block)")
 
 
@@ -407,6 +529,10 @@ def replay(ctx, path):
     exe, err = vlib.build_harness("execframe")
     open_map, flagsets = flag_setup()
     ids = X.Ids()
+    if obj.get("kind") == "eth":
+        res = eth_leg(ctx, exe, [obj["g"]])
+        print(json.dumps(dict(verdicts=res)))
+        return 1 if res is None or any(v[0] != 0 for _, v in res) else 0
     g = X.revive_ops(obj["g"])
     outs, e = X.run_histories(exe, [to_history(g)])
     if outs is None:
